@@ -27,13 +27,13 @@ ASSUMPTIONS = [
     "Zarr's own incidental read of an edge chunk is not a cubed-level read-modify-write and does not decide",
 ]
 NSHARDS = {"quick": 16, "thorough": 32}
-PER_SHARD = {"quick": 100, "thorough": 1600}
+PER_SHARD = {"quick": 80, "thorough": 1400}
 
 
 def shards(tier, seed):
     return [
         {"n": PER_SHARD[tier], "maxdim": 9 if tier == "quick" else 13, "depth": 4 if tier == "quick" else 6,
-         "watchdog_s": TIMEOUT[tier] - 30}
+         "stores": 60 if tier == "quick" else 1000, "watchdog_s": TIMEOUT[tier] - 30}
         for _ in range(NSHARDS[tier])
     ]
 
@@ -141,20 +141,119 @@ def judge(recipe, np_vals, cfg, rec, res, wd):
     return out
 
 
+def judge_store_targets(c, obs, res):
+    """C05 monitors on user-supplied store targets (workload shared with C11)."""
+    import itertools
+
+    out = []
+    roots = obs["target_roots"]
+
+    def V(kind, msg, **facts):
+        out.append({"kind": kind, "msg": f"{msg} | store call {c}", "facts": dict(facts, call=c)})
+
+    for w in obs["writes"]:
+        if "monitor_error" in w or w.get("root") not in roots:
+            continue
+        res["counters"]["block_writes"] += 1
+        res["counters"]["target_block_writes"] += 1
+        if not w["whole"]:
+            V("partial-chunk-write", f"task {w.get('task')} wrote region {list(zip(w['starts'], w['stops']))} of the target (shape {tuple(w['shape'])}) "
+              f"which is not a union of whole stored chunks of its grid {w['grid']}", write=w)
+    setters = {}
+    for e, arr, coords in storetrace.data_events(obs["events"], op=("set", "set_if_not_exists")):
+        if "err" in e or e["root"] not in roots:
+            continue
+        setters.setdefault((e["root"], arr), {}).setdefault(coords, []).append(e.get("task"))
+        res["counters"]["chunk_sets"] += 1
+    for key, chunks in setters.items():
+        for coords, tasks in chunks.items():
+            if len(set(tasks)) > 1:
+                V("multiple-writers", f"stored chunk {coords} of target {os.path.basename(key[0])} was written by {len(set(tasks))} tasks: {sorted(set(map(str, tasks)))[:4]}",
+                  coords=coords)
+            elif len(tasks) > 1:
+                V("chunk-written-twice", f"stored chunk {coords} of target was written {len(tasks)} times by task {tasks[0]}", coords=coords)
+    # coverage of the requested region
+    for root in roots:
+        for (r, arr), chunks in setters.items():
+            if r != root:
+                continue
+            want, z = expected_keys(root, arr)
+            if want is None:
+                continue
+            if c["region"] not in ("none", "full") and c.get("region_slices"):
+                unit = z.shards if getattr(z, "shards", None) is not None else z.chunks
+                rngs = []
+                for (a, b), u, t in zip(c["region_slices"], unit, z.shape):
+                    a = 0 if a is None else a
+                    b = t if b is None else b
+                    rngs.append(range(a // u, -(-b // u)))
+                want = set(itertools.product(*rngs))
+            res["counters"]["arrays_checked"] += 1
+            res["counters"]["chunks_expected"] += len(want)
+            missing = want - set(chunks)
+            extra = set(chunks) - want
+            if missing:
+                V("chunk-never-written", f"target: {len(missing)} of {len(want)} stored chunks intersecting the region were never written, e.g. {sorted(missing)[:3]}")
+            if extra:
+                V("write-outside-region", f"target: chunks outside the requested region were written: {sorted(extra)[:3]}")
+    return out
+
+
 def nontrivial(recipe, np_vals, cfg, rec):
     return rec["exc"] is None and bool(rec.get("events"))
 
 
-EXTRA = ("block_writes", "chunk_sets", "arrays_checked", "chunks_expected", "multi_chunk_arrays")
+EXTRA = ("block_writes", "chunk_sets", "arrays_checked", "chunks_expected", "multi_chunk_arrays", "store_calls", "target_block_writes")
 GEN_KW = {"weights": {"rechunk": 14, "multi": 6, "reduce": 12, "linalg": 6, "cum": 5}}
 
 
 def run_shard(spec, workdir):
-    return _rc.run_cases(spec, workdir, prop=PROPERTY, judge=judge, extra_counters=EXTRA, choose_cfgs=choose_cfgs,
-                         per_run=per_run, nontrivial=nontrivial, monitors=("block", "trace"), gen_kw=GEN_KW)
+    import random
+    import shutil
+
+    from checks import c11
+
+    res = _rc.run_cases(spec, workdir, prop=PROPERTY, judge=judge, extra_counters=EXTRA, choose_cfgs=choose_cfgs,
+                        per_run=per_run, nontrivial=nontrivial, monitors=("block", "trace"), gen_kw=GEN_KW)
+    # second workload: store / to_zarr into user-supplied targets (existing arrays of any chunking, sharded, regions)
+    rng = random.Random(spec["seed"] + 17)
+    scratch = c11._rc.new_result(c11.EXTRA)
+    for k in range(spec.get("stores", 60)):
+        c = c11.draw_call(rng)
+        c["executor"] = "seq"
+        if rng.random() < 0.7 and c["target"] in ("path", "group"):
+            c["target"] = rng.choice(["existing_coarser", "existing_finer", "existing_unrelated", "sharded", "existing_equal"])
+            c = c11.complete_target_geometry(c, rng)
+        wd = os.path.join(workdir, f"s{k}")
+        _, obs = c11.run_call(c, wd, scratch)
+        shutil.rmtree(wd, ignore_errors=True)
+        res["evaluations"] += 1
+        res["counters"]["store_calls"] += 1
+        if obs is None:
+            continue
+        viols = judge_store_targets(c, obs, res)
+        for v in viols:
+            v["property"] = PROPERTY
+            v["case"] = {"store_call": c}
+        res["violations"].extend(viols)
+        res["nontrivial"].append(gen.rhash(["store", c]))
+    return res
 
 
 def replay(rep, workdir):
+    if "store_call" in rep["case"]:
+        from checks import c11
+
+        res = _rc.new_result(EXTRA)
+        c = rep["case"]["store_call"]
+        _, obs = c11.run_call(c, os.path.join(workdir, "replay"), c11._rc.new_result(c11.EXTRA))
+        res["evaluations"] = 1
+        if obs is not None:
+            for v in judge_store_targets(c, obs, res):
+                v["property"] = PROPERTY
+                v["case"] = rep["case"]
+                res["violations"].append(v)
+        return res
     return _rc.replay_case(rep, workdir, prop=PROPERTY, judge=judge, extra_counters=EXTRA, per_run=per_run,
                            monitors=("block", "trace"))
 
@@ -166,6 +265,7 @@ def finalize(tier, merged):
         "floors": [
             ("stored-chunk writes attributed to tasks", c.get("chunk_sets", 0), 15000 if tier == "quick" else 300000),
             ("produced arrays whose grid coverage was checked", c.get("arrays_checked", 0), 2500 if tier == "quick" else 50000),
+            ("block writes into user-supplied store targets observed", c.get("target_block_writes", 0), 1500 if tier == "quick" else 30000),
         ],
         "assumptions": ASSUMPTIONS,
     }
